@@ -122,7 +122,7 @@ AnyMenu == << {}, {"INCREASING_QUALITY"}, {"OPTIMAL_PLANS"}, {"INCREASING_QUALIT
 \* features a mock compiler removes / adds in resulting_problem_kind (universe indices:
 \* 2 CONTINUOUS_TIME, 3 TRAJECTORY_CONSTRAINTS, 4 STATE_INVARIANTS, 5 EXISTENTIAL_CONDITIONS, 6 PLAN_LENGTH)
 RemMenu == << {}, {3}, {4, 5}, {5}, {2, 3, 4, 5, 6} >>
-AddMenu == << {}, {}, {4}, {} >>
+AddMenu == << {}, {4}, {3}, {} >>
 
 Radix == <<Len(ModeMenu), Len(FeatMenu), Len(PlanMenu), Len(CompMenu), Len(OptMenu), Len(AnyMenu), Len(RemMenu), Len(AddMenu)>>
 RECURSIVE Prod(_, _)
